@@ -160,7 +160,7 @@ pub fn iters<const N: usize, P: Pad>(ctx: &mut Ctx) {
     let mut vc = 999u32;
     let all_scripts = scripts_upto(N + 2);
     // default-constructed iterators are empty
-    if ctx.mine(hash64(&format!("default|{}", N))) && ctx.begin_case(|| format!("iters N={} default-constructed iterators", N)) {
+    if ctx.mine_next() && ctx.begin_case(|| format!("iters N={} default-constructed iterators", N)) {
         let mut i: Iter<'_, TokG<P>> = Default::default();
         let mut m: IterMut<'_, TokG<P>> = Default::default();
         if i.len() != 0 || i.next().is_some() || i.next_back().is_some() || m.len() != 0 || m.next().is_some() || m.next_back().is_some() {
@@ -182,10 +182,10 @@ pub fn iters<const N: usize, P: Pad>(ctx: &mut Ctx) {
                     };
                     for form in forms {
                         for script in all_scripts.iter().filter(|s| s.len() <= sel + 2) {
-                            let key = hash64(&format!("{}|{}|{}|{}|{:?}|{}", N, P::NAME, start, len, form, script_str(script)));
-                            if !ctx.mine(key) {
+                            if !ctx.mine_next() {
                                 continue;
                             }
+                            let key = hash64(&format!("{}|{}|{}|{}|{:?}|{}", N, P::NAME, start, len, form, script_str(script)));
                             for &route in &routes {
                                 if N == 0 && route != 0 {
                                     continue;
